@@ -21,6 +21,7 @@ void check_C06(Src &s, Ctx &ctx) {
     SpecOpts so; so.cap = cfg().tier ? 450 : 300;
     GridState st; st.cap = so.cap; st.ctx = &ctx;
     st.spec = decode_spec(s, so); st.vm.decode(s);
+    if (s.n >= 3 && (s.p[s.n - 1] % 8) == 5) { st.vm.degenerate = 1 + (s.p[s.n - 2] % 3); ctx.label("model:degenerate"); }   // one case in eight: constant / affine / one-active-direction model (coefficients vanish exactly)
     bool empty_grid = s.chance(1, 40);
     if (!empty_grid) make_grid(st.g, st.spec, so.cap);
     ctx.log(empty_grid ? "EMPTY GRID" : st.spec.text());
